@@ -66,6 +66,15 @@ func processAccessClients(
 	return nil
 }
 
+// isRegexpRule returns true if rule is a filtering rule with a regular
+// expression pattern, like "/^ads\d+\./" or "/^ads\d+\./$dnstype=A".
+func isRegexpRule(rule string) (ok bool) {
+	rule = strings.TrimSpace(rule)
+	rule = strings.TrimPrefix(rule, "@@")
+
+	return strings.HasPrefix(rule, "/") && strings.LastIndexByte(rule, '/') > 0
+}
+
 // newAccessCtx creates a new accessCtx.
 func newAccessCtx(allowed, blocked, blockedHosts []string) (a *accessManager, err error) {
 	a = &accessManager{
@@ -88,7 +97,14 @@ func newAccessCtx(allowed, blocked, blockedHosts []string) (a *accessManager, er
 
 	b := &strings.Builder{}
 	for _, h := range blockedHosts {
-		stringutil.WriteToBuilder(b, strings.ToLower(h), "\n")
+		if !isRegexpRule(h) {
+			// Hostnames in rules are matched in lower case.  Don't lower-case
+			// regular expressions though, since that changes the meaning of
+			// character classes like \D or \S.
+			h = strings.ToLower(h)
+		}
+
+		stringutil.WriteToBuilder(b, h, "\n")
 	}
 
 	lists := []filterlist.RuleList{
